@@ -12,7 +12,7 @@ TEMPLATES = [
     "cat|cat", "cat|mr", "mr|cat", "mr|mr", "cai|cac", "cac|cai", "numarr|cat", "numarr|mr",
     "cat|cat_date", "mr|cat|cat", "cat|mr|mr", "cat|cat|mr", "cat|mr|cat", "cai|mr|cac",
     "cac|mr|cai", "mr|cai|cac", "cat", "mr", "numarr", "cat_date", "text|cat", "cat|binned",
-    "cai|cac|mr", "cat|cai|cac",
+    "cai|cac|mr", "cat|cai|cac", "cat", "mr", "cat_date",
 ]
 FLAGS = [(hr, hc, pr, pc) for hr in (0, 1) for hc in (0, 1) for pr in (0, 1) for pc in (0, 1)]
 RULE = (
@@ -41,7 +41,7 @@ BATCH = 40
 
 
 def units(tier, seed):
-    n = 640 if tier == "quick" else 30000
+    n = 864 if tier == "quick" else 30000
     return [{"i": i, "seed": seed} for i in range(n)]
 
 
